@@ -125,6 +125,15 @@ fn c02_sig(diff: &str, m1: &Beatmap) -> String {
         if let Some(idx) = rest.split(']').next().and_then(|x| x.parse::<usize>().ok()) {
             if let Some(HitObjectKind::Slider(s)) = m1.hit_objects.get(idx).map(|h| &h.kind) {
                 let sh = shape_of(s.path.control_points());
+                if diff.contains("curve") && !diff.contains("control_points") {
+                    // the slider's own curve is not the curve of its control points under the map's mode: the line was read
+                    // before the Mode record
+                    let mut bufs = rosu_map::section::hit_objects::CurveBuffers::default();
+                    let under_final = rosu_map::section::hit_objects::Curve::new(m1.mode, s.path.control_points(), s.path.expected_dist(), &mut bufs);
+                    if s.path.clone().curve() != &under_final {
+                        return "curve:mode-read-after-hit-objects".into();
+                    }
+                }
                 if diff.contains("control_points") || diff.contains("curve") || diff.contains("velocity") {
                     return format!("path-roundtrip:{sh}");
                 }
@@ -164,6 +173,14 @@ pub fn encoder_relations(args: &Args, s: &mut Summary) {
         for (i, (mode, line)) in [(0, "256,192,-1.3,12,0,2147483647"), (3, "256,192,-1.3,128,0,2147483647:0:0:0:0:"), (0, "256,192,-0.7,12,0,2147483647")].iter().enumerate() {
             files.push((format!("fixed-end-at-limit-{i}"),
                         format!("osu file format v14\n\n[General]\nMode: {mode}\n\n[TimingPoints]\n0,500,4,1,0,100,1,0\n\n[HitObjects]\n100,100,-5,1,0,0:0:0:0:\n{line}\n"), false));
+        }
+    }
+    if prop == "C02" {
+        // known shape: a Catmull slider read BEFORE the Mode record (sections out of the canonical order): its curve is
+        // computed under the mode known then, the encoder writes [General] first
+        for (i, (mode, line)) in [(2, "100,100,1000,2,0,C|200:200|300:100|400:300,1,350"), (3, "100,100,1000,2,0,C|200:200|300:100|400:300,1")].iter().enumerate() {
+            files.push((format!("fixed-mode-after-objects-{i}"),
+                        format!("osu file format v14\n\n[TimingPoints]\n0,500,4,1,0,100,1,0\n\n[HitObjects]\n{line}\n\n[General]\nMode: {mode}\n"), false));
         }
     }
     for (name, text, _) in &files {
